@@ -431,3 +431,103 @@ func swapOp(op token.Token) token.Token {
 	}
 	return op
 }
+
+// ---- return sites --------------------------------------------------------------
+//
+// A function written with a single trailing `return x` has one Return block that
+// merges several paths. For path rules ("every exit that reports success …") each
+// incoming edge of such a pure join is its own exit: retSite describes one exit.
+
+type retSite struct {
+	Ret     *ssa.Return
+	Pred    *ssa.BasicBlock // non-nil: the exit is the edge Pred → Ret.Block()
+	Results []ssa.Value     // results with the join's phis resolved for this edge
+}
+
+// pureJoin: the block contains only phis, loads of result cells, rundefers and the return.
+func pureJoin(b *ssa.BasicBlock) bool {
+	if len(b.Preds) < 2 {
+		return false
+	}
+	for _, in := range b.Instrs {
+		switch x := in.(type) {
+		case *ssa.Phi, *ssa.Return, *ssa.DebugRef:
+		case *ssa.UnOp:
+			if x.Op != token.MUL {
+				return false
+			}
+			if _, ok := x.X.(*ssa.Alloc); !ok {
+				return false
+			}
+		default:
+			return false
+		}
+	}
+	return true
+}
+
+func returnSites(fn *ssa.Function) []retSite {
+	var out []retSite
+	for _, r := range returnsOf(fn) {
+		b := r.Block()
+		if !pureJoin(b) {
+			out = append(out, retSite{Ret: r, Results: r.Results})
+			continue
+		}
+		for i, p := range b.Preds {
+			res := make([]ssa.Value, len(r.Results))
+			for k, v := range r.Results {
+				res[k] = v
+				if ph, ok := v.(*ssa.Phi); ok && ph.Block() == b {
+					res[k] = ph.Edges[i]
+				}
+			}
+			out = append(out, retSite{Ret: r, Pred: p, Results: res})
+		}
+	}
+	return out
+}
+
+// At: the instruction whose program point represents the exit (for dominance queries).
+func (s retSite) At() ssa.Instruction {
+	if s.Pred != nil {
+		return s.Pred.Instrs[len(s.Pred.Instrs)-1]
+	}
+	return s.Ret
+}
+
+// Conds: branch conditions that hold on this exit.
+func (s retSite) Conds() []Cond {
+	if s.Pred == nil {
+		return condsAtInstr(s.Ret)
+	}
+	cs := condsAt(s.Pred)
+	if ifi, ok := s.Pred.Instrs[len(s.Pred.Instrs)-1].(*ssa.If); ok && s.Pred.Succs[0] != s.Pred.Succs[1] {
+		for si := 0; si < 2; si++ {
+			if s.Pred.Succs[si] == s.Ret.Block() {
+				cs = append(cs, normCond(Cond{ifi.Cond, si == 0}))
+			}
+		}
+	}
+	return cs
+}
+
+// DominatedBy: instruction x executes before this exit on every path to it.
+func (s retSite) DominatedBy(x ssa.Instruction) bool {
+	at := s.At()
+	if x == at {
+		return true
+	}
+	return instrDominates(x, at)
+}
+
+func (s retSite) Pos() token.Pos {
+	if s.Pred != nil {
+		for i := len(s.Pred.Instrs) - 1; i >= 0; i-- {
+			if p := s.Pred.Instrs[i].Pos(); p.IsValid() {
+				return p
+			}
+		}
+	}
+	return s.Ret.Pos()
+}
